@@ -136,12 +136,30 @@ def check_case(ctx, case, via='function', index=0):
     if t0.year < 1971:
         rec.hit('cases-before-or-straddling-1970')
     if via == 'function':
-        connection = sqlite3.connect(':memory:')
+        # library use: the caller's connection may be a file or in memory, may carry a row
+        # factory, and logging may be configured at DEBUG
+        if index % 4 == 1:
+            dbf = os.path.join(ctx.workdir, 'lf{}.sqlite3'.format(index))
+            if os.path.exists(dbf):
+                os.remove(dbf)
+            connection = sqlite3.connect(dbf)
+            rec.hit('function-loads-into-a-file-database')
+        else:
+            connection = sqlite3.connect(':memory:')
+        if index % 5 == 2:
+            connection.row_factory = sqlite3.Row
+            rec.hit('function-loads-on-a-connection-with-a-row-factory')
         try:
-            load_mod.load_data(connection, io.StringIO(p, newline=''), io.StringIO(e, newline=''), io.StringIO(z, newline=''), zone)
+            if index % 7 == 3:
+                rec.hit('function-loads-with-logging-at-debug')
+                with data.library_logging('DEBUG'):
+                    load_mod.load_data(connection, io.StringIO(p, newline=''), io.StringIO(e, newline=''), io.StringIO(z, newline=''), zone)
+            else:
+                load_mod.load_data(connection, io.StringIO(p, newline=''), io.StringIO(e, newline=''), io.StringIO(z, newline=''), zone)
             exc = None
         except Exception as err:  # pylint: disable=broad-except
             exc = err
+        connection.row_factory = None
     else:
         paths = []
         for name, text in (('p', p), ('e', e), ('z', z)):
